@@ -181,6 +181,18 @@ checks["C15"]["kani"] += [its("c15_its_upgrade", "upgrade (derived)"), its("c15_
 checks["C07"]["kani"] += [its("c05_interchain_transfer", "interchain_transfer"), its("c11_deploy_interchain_token", "deploy_interchain_token"),
                            its("c18_deploy_remote_interchain_token", "deploy_remote_interchain_token")]
 
+
+AB = "abi::verif::"
+checks["C10"] = {"scans": ["c10_strict_flag"], "kani": [
+    k(ITS, AB + "c10_to_i128_full_domain", "abi::to_i128"),
+    k(ITS, AB + "c10_message_type_tags", "impl From<MessageType> for U256"),
+    k(ITS, AB + "c10_get_message_type_head", "abi::get_message_type (32-byte head, full domain)"),
+    k(ITS, AB + "c10_get_message_type_short", "abi::get_message_type (short input)"),
+    k(ITS, AB + "c10_optional_bytes_absent", "abi::into_vec / abi::from_vec"),
+    k(ITS, AB + "c10_optional_bytes_empty_bounded", "abi::into_vec / abi::from_vec", bounded="present field of length 0"),
+    k(ITS, AB + "c10_optional_bytes_len2_bounded", "abi::into_vec / abi::from_vec", bounded="present field of length 2, symbolic content"),
+]}
+
 if __name__ == "__main__":
     here = os.path.dirname(os.path.abspath(__file__))
     json.dump(checks, open(os.path.join(here, "checks.json"), "w"), indent=1)
